@@ -51,8 +51,15 @@ def r02_1(ctx, prog, crate):
             regions += 1
             region = b.between([s.bb], ends) - set(ends)
             measured = []
+            spl = set(getattr(b, "spliced_closures", ()) or ())
             for x in sorted(region):
                 t = b.term(x)
+                if not is_rec and spl and set(b.inlined_chain(x)) & spl:
+                    # the body of the measured operation itself: a closure handed to the measuring helper, spliced in at
+                    # the helper's call of it (lib.inline) - what it does is what is being measured
+                    if not measured:
+                        measured.append(None)
+                    continue
                 if t["k"] == "call":
                     c = b.call_at(x)
                     ctx.calls_examined += 1
@@ -90,7 +97,7 @@ def r02_1(ctx, prog, crate):
                               "the benchmarked call is not executed exactly once per iteration of the timed loop",
                               m.line())
             ctx.ok("R02.1", "%s|region|%s" % (b.path, _lbl(rec, s) if is_rec else "bb-order-%d" % st.index(s)),
-                   {"body": b.path, "blocks": len(region), "measured": [m.name for m in measured]})
+                   {"body": b.path, "blocks": len(region), "measured": [m.name if m is not None else "<spliced operation>" for m in measured]})
     ctx.anchor("R02.1", "timed regions (UntaggedTimestamp::start -> ::end)", regions, FLOOR_REGIONS)
     # side conditions of the allow-list entries that consume an output inside the timed region:
     #  * black_box_drop(output) (inputs-only path) is drop-free only if that path is selected exactly when !needs_drop::<O>()
